@@ -534,6 +534,17 @@ static long rss_mb(pid_t pid) {
   return res * (sysconf(_SC_PAGESIZE) / 1024) / 1024;
 }
 
+// "<state> cpu=<utime+stime in clock ticks>" of a process (diagnostics for the wall-clock backstop)
+static std::string proc_state(pid_t pid) {
+  char path[64]; std::snprintf(path, sizeof path, "/proc/%d/stat", (int)pid);
+  FILE* f = std::fopen(path, "r"); if (!f) return "gone";
+  char buf[1024]; size_t n = std::fread(buf, 1, sizeof buf - 1, f); std::fclose(f); buf[n] = 0;
+  const char* rp = std::strrchr(buf, ')'); if (!rp) return "?";
+  char st = '?'; long long v[16] = {0}; int k = 0;
+  std::istringstream is(rp + 1); is >> st; for (; k < 12 && (is >> v[k]); ++k) {}
+  return std::string("state=") + st + " cpu_ticks=" + std::to_string(v[10] + v[11]);
+}
+
 static std::string flat1(const std::string& s) {
   std::string r; r.reserve(s.size() + s.size() / 16);
   for (char c : s) { if (c == '\n') r += " | "; else if (c == '\r' || c == '\t') r += ' '; else r += c; }
@@ -571,7 +582,7 @@ template <typename F> static Verdict supervise(const std::string& line, long tim
   }
   close(po[1]); close(pe[1]);
   std::string so, se; bool eo = false, ee = false; const char* killed = nullptr;
-  long peak = 0; double next_rss = t0 + 5, last_progress = t0;
+  long peak = 0; double next_rss = t0 + 5, last_progress = t0; std::string stall;
   while (!(eo && ee)) {
     struct pollfd fds[2] = {{po[0], POLLIN, 0}, {pe[0], POLLIN, 0}};
     int pr = poll(fds, 2, 10);
@@ -582,7 +593,7 @@ template <typename F> static Verdict supervise(const std::string& line, long tim
     }
     double now = now_ms();
     if (!killed && now >= next_rss) { long r = rss_mb(pid); if (r > peak) peak = r; next_rss = now + 20; if (r > rss_lim) { killed = "MEM"; kill(pid, SIGKILL); } }
-    if (!killed && now - last_progress > 8.0 * timeout_ms) { killed = "HANG"; kill(pid, SIGKILL); }   // wall-clock backstop (blocked child), counted from the last progress message
+    if (!killed && now - last_progress > 8.0 * timeout_ms) { killed = "HANG"; stall = proc_state(pid); kill(pid, SIGKILL); }   // wall-clock backstop (blocked child), counted from the last progress message
   }
   close(po[0]); close(pe[0]);
   int st = 0; waitpid(pid, &st, 0);
@@ -601,7 +612,7 @@ template <typename F> static Verdict supervise(const std::string& line, long tim
   if (ent == "?" || ent.empty()) { Toks t(line); ent = t.more() ? "cmd." + t.next() : "?"; }   // died while parsing: use the command word
   if (!progress.empty()) progress = "[" + progress + "] ";
   bool san = se.find("runtime error:") != std::string::npos || se.find("Sanitizer:") != std::string::npos;
-  if (killed) { v.status = killed; v.detail = progress + "rss_peak_mb=" + std::to_string(peak) + " " + flat(se, 1500); }
+  if (killed) { v.status = killed; v.detail = progress + (stall.empty() ? "" : "wall-clock " + stall + " ") + "rss_peak_mb=" + std::to_string(peak) + " " + flat(se, 1500); }
   else if (WIFSIGNALED(st) && (WTERMSIG(st) == SIGXCPU || WTERMSIG(st) == SIGKILL)) { v.status = "HANG"; v.detail = progress + "cpu-limit signal=" + std::to_string(WTERMSIG(st)) + " " + flat(se, 1500); }
   else if (WIFEXITED(st) && WEXITSTATUS(st) == 77) { v.status = "LEAK"; v.detail = flat(det, 300) + " || " + flat(se, 6000); }
   else if (san) { v.status = "SAN"; v.detail = progress + "exit=" + std::to_string(WIFEXITED(st) ? WEXITSTATUS(st) : -WTERMSIG(st)) + " " + flat(se, 40000); }
